@@ -35,8 +35,12 @@
      - parent_text_keys): texts sent = referenced by a sent inventory and by no
      boundary-parent inventory the source has                                   = [texts_diff];
      generic StreamSource.get_stream (different formats, item_keys_introduced_by /
-     fileids_altered_by_revision_ids + _generate_root_texts): texts whose
-     revision is a sent revision                                                = [texts_byrev].
+     fileids_altered_by_revision_ids = _find_file_ids_from_xml_inventory_lines: text keys seen
+     in the sent inventories minus those seen in the boundary-parent inventories, +
+     _generate_root_texts which adds the root keys a non-rich-root inventory table already
+     names): the same selection                                                  = [texts_diff].
+     A text may be named after a revision the source does not hold (a ghost that introduced
+     it): it is selected like any other, by inventory difference, never by its revision.
    * StreamSink.insert_stream / insert_stream_without_locking /
      VersionedFileRepository.get_missing_parent_inventories (formats with
      supports_external_lookups, i.e. 2a, stacked or not): the parents of the new
@@ -82,6 +86,11 @@ Definition wf_univ (U : univ) : bool :=
                     (inv_of U r))
           (seq 0 (List.length (ug U))).
 
+(* the shape only: a sparse source may hold a revision without the parent that introduced some of
+   its texts (the text key then names a revision the source lacks) *)
+Definition wf_shape (U : univ) : bool :=
+  wf_dag (ug U) && (List.length (uinv U) =? List.length (ug U)).
+
 (* the visible revisions are closed under the parents the source has *)
 Definition closedb (U : univ) (vis : list revid) : bool :=
   forallb (fun r => negb (srcp U r) ||
@@ -105,6 +114,21 @@ Definition missing_full (U : univ) (vis : list revid) (r : revid) : list revid :
 Definition missing_walk (U : univ) (vis : list revid) (r : revid) : list revid :=
   filter (fun a => srcp U a && negb (memb a vis)) (anc U r).
 
+(* find_ghosts=False from a source reached through the smart server (RemoteRepository): the client
+   sends the walk's result as a search RECIPE (start keys = the requested tip, exclude keys = the
+   revisions where the walk stopped, i.e. revisions the target has) and the server replays it
+   (SmartServerRepositoryGetStream, recreate_search): it walks from the tip and never passes an
+   excluded revision.  Missing revisions that are only reachable through a revision the target has
+   (a ghost of the target below one of its own revisions) are therefore not sent, although the
+   client-side walk found them.  One downward sweep (parents have smaller indices): *)
+Fixpoint sweep_avoid (g : dag) (vis : list revid) (n : nat) (s : list revid) : list revid :=
+  match n with
+  | 0 => s
+  | S i => sweep_avoid g vis i (if memb i s && negb (memb i vis) then union (parents g i) s else s)
+  end.
+Definition missing_replay (U : univ) (vis : list revid) (r : revid) : list revid :=
+  filter (fun a => srcp U a && negb (memb a vis)) (sweep_avoid (ug U) vis (List.length (ug U)) [r]).
+
 (* the search BEFORE be5f5d4 (kept for the regression statement C03_old_walk_unclosed_refuted): the
    revisions the target has and ALL their seen ancestors were excluded, also ancestors the target lacks *)
 Definition haves (U : univ) (vis : list revid) (r : revid) : list revid :=
@@ -113,8 +137,6 @@ Definition missing_walk_old (U : univ) (vis : list revid) (r : revid) : list rev
   let stop := ancestors (ug U) (haves U vis r) in
   filter (fun a => srcp U a && negb (memb a stop)) (anc U r).
 
-Definition missing (U : univ) (fg : bool) (vis : list revid) (r : revid) : list revid :=
-  if fg then missing_full U vis r else missing_walk U vis r.
 
 (* ---- what is sent ---- *)
 (* parents of the sent revisions that are not sent and that the source has *)
@@ -124,17 +146,17 @@ Definition boundary (U : univ) (M : list revid) : list revid :=
 Definition texts_diff (U : univ) (M : list revid) : list tkey :=
   filter (fun t => negb (tmemb t (inv_texts U (boundary U M)))) (inv_texts U M).
 
-Definition texts_byrev (U : univ) (M : list revid) : list tkey :=
-  filter (fun t => memb (snd t) M) (inv_texts U M).
-
 Record cfg := Cfg {
   ext : bool;        (* target format supports_external_lookups (2a): parent inventories are refilled *)
-  byrev : bool;      (* source and target formats differ: generic StreamSource *)
   incompat : bool;   (* rich-root source, non-rich-root target *)
-  stacked : bool     (* the target has a fallback repository *) }.
+  stacked : bool;    (* the target has a fallback repository *)
+  remote_src : bool  (* the source is reached through the smart server *) }.
 
-Definition sent_texts (U : univ) (c : cfg) (M : list revid) : list tkey :=
-  if byrev c then texts_byrev U M else texts_diff U M.
+Definition missing (U : univ) (c : cfg) (fg : bool) (vis : list revid) (r : revid) : list revid :=
+  if fg then missing_full U vis r
+  else if remote_src c then missing_replay U vis r else missing_walk U vis r.
+
+Definition sent_texts (U : univ) (c : cfg) (M : list revid) : list tkey := texts_diff U M.
 
 Definition refill (U : univ) (c : cfg) (T : repo) (M : list revid) : list revid :=
   if ext c then filter (fun p => negb (memb p (invs T))) (boundary U M) else [].
@@ -164,7 +186,7 @@ Definition transfer (U : univ) (c : cfg) (T : repo) (M : list revid) : outcome *
 Definition fetch (U : univ) (c : cfg) (F T : repo) (fg : bool) (r : revid) : outcome * nat * repo :=
   let vis := vis_of F T in
   if negb (srcp U r) && (fg || negb (memb r vis)) then (FNoSuchRevision, 0, T)
-  else transfer U c T (missing U fg vis r).
+  else transfer U c T (missing U c fg vis r).
 
 (* Repository.fetch(source) without a revision (EverythingNotInOther: all_revision_ids of the
    source minus those the target sees) *)
@@ -264,11 +286,12 @@ Fixpoint run_ops (U : univ) (c : cfg) (rootless : detail) (F T : repo) (ops : li
 
 (* A case: the universe, the configuration, the revisions seeded into the fallback
    (complete, unstacked) and into the target, extra revisions the target holds that
-   the source does not know (their texts are not observed), the operations. *)
-Definition run_case (g : dag) (iv : list (list tkey)) (c : cfg) (rootless : detail)
-                    (Zf Zt extra : list revid) (ops : list op) : obs :=
+   the source does not know, with the texts they brought ([xtexts]), the operations.
+   [strict]: the history is an ordinary one (wf_univ); otherwise only its shape is checked. *)
+Definition run_case (g : dag) (iv : list (list tkey)) (c : cfg) (rootless : detail) (strict : bool)
+                    (Zf Zt extra : list revid) (xtexts : list tkey) (ops : list op) : obs :=
   let U := Univ g iv in
   let F := seed U Zf in
   let T0 := seed U Zt in
-  let T := Repo (extra ++ revs T0) (extra ++ invs T0) (texts T0) in
-  OL [obool (wf_univ U); o_repo rootless T; OL (run_ops U c rootless F T ops)].
+  let T := Repo (extra ++ revs T0) (extra ++ invs T0) (tunion xtexts (texts T0)) in
+  OL [obool (if strict then wf_univ U else wf_shape U); o_repo rootless T; OL (run_ops U c rootless F T ops)].
